@@ -89,22 +89,56 @@ def state_matches(e, st, reg_ptr, spec):
         if af is not False:
             cs.append(('alias %s points to the right name' % UNIVERSE[n], zimp(af, str_eq(tgt, name_of(spec.target[n])))))
             # independent of the spec: an alias never points to a command that is gone
-            tf, _, _ = map_lookup(e, st, cmds, tgt)
+            tf, tbox, _ = map_lookup(e, st, cmds, tgt)
             cs.append(('alias %s does not dangle' % UNIVERSE[n], zimp(af, tf)))
+            if tf is not False:
+                tc = e.deref(st, tbox)
+                lists = lambda c: zor(*[zand(j < c.f[1].len, str_eq(c.f[1].it[j], key)) for j in range(len(c.f[1].it))]) if c.f[1].it else False
+                cs.append(('alias %s is listed by the command it points to' % UNIVERSE[n], zimp(zand(af, tf), umap(tc, lists) if not isinstance(tc, U) else zor(*[zand(c_, lists(x)) for c_, x in tc.alts]))))
     return cs
 
 
-def job_history(ctx, jr, seqs):
-    """each op sequence (kinds fixed, all arguments symbolic) from Commands::new(), compared step by step with the spec"""
+def arbitrary_registry(e, st):
+    """a symbolic registry over the universe satisfying the invariant of the property: an alias points to a registered command
+    that lists it (nothing is assumed about which listed aliases are still in the alias table)"""
+    spec = Spec()
+    spec.reg = [e.fresh_bool('reg.%s' % UNIVERSE[n]) for n in range(NU)]
+    spec.al = [(e.fresh_int('al.%s.len' % UNIVERSE[n], 0, 2), [e.fresh_int('al.%s.%d' % (UNIVERSE[n], j), 0, NU - 1) for j in range(2)]) for n in range(NU)]
+    spec.target = [e.fresh_int('target.%s' % UNIVERSE[n], -1, NU - 1) for n in range(NU)]
+    for n in range(NU):
+        t = spec.target[n]
+        listed = False
+        for m in range(NU):
+            alen, als = spec.al[m]
+            listed = zor(listed, zand(zeq(t, m), spec.reg[m], zor(*[zand(j < alen, zeq(als[j], n)) for j in range(2)])))
+        e.assume(z3.Implies(t >= 0, listed))
+    cmds = []; als_ = []
+    for n in range(NU):
+        alen, als = spec.al[n]
+        box = e.alloc(st, T([mk_str(UNIVERSE[n]), V(alen, [name_of(a) for a in als])], CMD_TY))
+        cmds.append((spec.reg[n], mk_str(UNIVERSE[n]), box))
+        als_.append((spec.target[n] >= 0, mk_str(UNIVERSE[n]), name_of(spec.target[n])))
+    return spec, T([M(cmds), M(als_)], 'types::command::Commands')
+
+
+def job_history(ctx, jr, seqs, from_arbitrary=False):
+    """each op sequence (kinds fixed, all arguments symbolic) from Commands::new() - or, as a step lemma, ONE operation from an
+    arbitrary registry satisfying the invariant - compared step by step with the spec"""
     jr.bounds = dict(universe=list(UNIVERSE), op_sequences=len(seqs), steps=len(seqs[0]), aliases_per_command='0..2 (may repeat, may equal names)')
+    if from_arbitrary: jr.bounds.update(initial_registry='arbitrary over the universe, invariant assumed and re-established', claim='one-operation lemma; a history is its iteration (DESIGN.md 8.9)')
     for seq in seqs:
         e = ctx.engine(unwind=6)
         install_command_model(e)
         t0 = time.time()
         st = State(True, {})
-        st, reg0 = e.run('core', 'types::command::Commands::new', [], st)
+        if from_arbitrary:
+            spec, reg0 = arbitrary_registry(e, st)
+            pre = dict(reg=list(spec.reg), al=list(spec.al), target=list(spec.target))
+        else:
+            st, reg0 = e.run('core', 'types::command::Commands::new', [], st)
+            spec = Spec(); pre = None
         st.m[(0, 'reg')] = reg0
-        spec = Spec(); regp = P(0, 'reg'); script = []; g_checks = []
+        regp = P(0, 'reg'); script = []; g_checks = []
         for k, op in enumerate(seq):
             if st is None: break
             if op == 'S':
@@ -158,7 +192,15 @@ def job_history(ctx, jr, seqs):
                     al = [UNIVERSE[solve.model_int(m, a)] for a in it[3][:solve.model_int(m, it[2])]]
                     ops.append(['set', UNIVERSE[solve.model_int(m, it[1])], al])
                 else: ops.append([it[0], UNIVERSE[solve.model_int(m, it[1])]])
-            return dict(kind='c15', ops=ops)
+            d_ = dict(kind='c15', ops=ops)
+            if pre is not None:
+                # rebuild the arbitrary registry natively: register every command of the pre-state with the aliases that point to it
+                init = []
+                for n in range(NU):
+                    if solve.model_bool(m, pre['reg'][n]):
+                        init.append(['set', UNIVERSE[n], [UNIVERSE[x] for x in range(NU) if solve.model_int(m, pre['target'][x]) == n]])
+                d_['ops'] = init + ops; d_['prefix'] = len(init); d_['kind'] = 'lemma'
+            return d_
         # known class: removing a command that declares an alias which currently points to another command
         res = discharge_known(e, jr, PID, {}, extract)
         witness(jr, e, 'sequence %s runs' % ''.join(seq), st.g, extract)
@@ -210,7 +252,8 @@ def main(tier, seed):
     groups = [seqs[i::12] for i in range(12)]
     for gi, g in enumerate(groups):
         if g: chk.job(job_history, 'histories/%d' % gi, seqs=g)
-    chk.bounds = dict(universe=list(UNIVERSE), history_length=k, op_kind_sequences=len(seqs), arguments='symbolic (names, alias lists of 0..2, lookup keys)')
+    for op in 'SRG': chk.job(job_history, 'step/%s' % op, seqs=[(op,)], from_arbitrary=True)
+    chk.bounds = dict(step_lemmas='set / remove / lookup from an arbitrary registry over the universe satisfying the invariant (no dangling alias; an alias is listed by its command), invariant re-established', universe=list(UNIVERSE), history_length=k, op_kind_sequences=len(seqs), arguments='symbolic (names, alias lists of 0..2, lookup keys)')
     chk.assumptions = ['dyn Command name()/aliases() of registered commands are harness values over the universe {a,b,c}',
                        'op kinds are case-split (one solver run per kind sequence); all arguments are symbolic', 'HashMap modelled as association list; iteration in slot order']
     results = chk.run()
